@@ -6,7 +6,12 @@
 (*   Enter(ty, b)   api.Entry(res, WithTrafficType(ty), WithBatchCount(b))  *)
 (*                  (the resource is irrelevant to the gate: the driver     *)
 (*                  spreads the requests over several resources)           *)
-(*   Exit(e)            e.Exit() of an admitted entry                      *)
+(*   Exit(e, werr)      e.Exit() / e.Exit(WithError(err)) of an admitted   *)
+(*                      entry: THE completion of e                         *)
+(*   TraceErr(e)        api.TraceError(e, err) on an open entry: the later *)
+(*                      completion of e carries the error                  *)
+(*   Late(a)            Exit(WithError) / TraceError on an entry that has  *)
+(*                      already completed: changes nothing                 *)
 (*   Tick(d)            the clock advances                                 *)
 (*   SetLoad / SetCpu   a new system sample arrives                        *)
 (* The rule list is chosen once per behaviour (Init), out of RuleLists.    *)
@@ -22,6 +27,15 @@
 (* never blocked, blocked iff some rule violated, reported rule violated,  *)
 (* a BBR rule is never stricter than its plain twin, unsampled load / cpu  *)
 (* never blocks, blocked requests leave the aggregate untouched).          *)
+(*                                                                         *)
+(* An entry completes in one of three ways - plain Exit, Exit with an      *)
+(* error, TraceError followed by Exit - and the first-principles readings  *)
+(* (HCompl, HRtSum, HAvgRt, HMinRt, HPeak, HConc) range over EVERY         *)
+(* completed entry of the history, whatever way it completed; only HErr    *)
+(* looks at the error flag.  CompleteUpd is the bookkeeping of a           *)
+(* completion; SystemGate_MC overrides it with mutants (error completions  *)
+(* that skip the RT / the completion count) to show that AvgRtOK, MinRtOK, *)
+(* PeakOK are not vacuous with respect to the way an entry completes.      *)
 (***************************************************************************)
 EXTENDS SystemGateOps, TLC
 
@@ -40,8 +54,9 @@ VARIABLES
     rules,  \* loaded rule list
     ref,    \* inbound aggregate (WindowRef reference)
     conc,   \* inbound in-flight gauge
-    open,   \* admitted entries not yet exited: [id, res, ty, b, start]
-    adm,    \* first-principles history: admitted entries [id, ty, b, tin, tout] (tout = -1: open), pruned
+    open,   \* admitted entries not yet exited: [id, ty, b, start, terr] (terr: TraceError was called on it)
+    adm,    \* first-principles history: admitted entries [id, ty, b, tin, tout, err] (tout = -1: open;
+            \* err: completed with an error), pruned
     nid,    \* next entry id
     load, cpu,
     nset,   \* number of sample changes so far
@@ -79,8 +94,8 @@ Enter(ty, b) ==
               \* (the conformance driver still exits it, at a random later point)
               /\ IF ty = "in"
                    THEN /\ Cardinality(open) < MaxOpen
-                        /\ open' = open \cup {[id |-> nid, ty |-> ty, b |-> b, start |-> now]}
-                        /\ adm'  = adm \cup {[id |-> nid, ty |-> ty, b |-> b, tin |-> now, tout |-> -1]}
+                        /\ open' = open \cup {[id |-> nid, ty |-> ty, b |-> b, start |-> now, terr |-> FALSE]}
+                        /\ adm'  = adm \cup {[id |-> nid, ty |-> ty, b |-> b, tin |-> now, tout |-> -1, err |-> FALSE]}
                         /\ ref' = OnPass(ref, now, b) /\ conc' = conc + 1
                    ELSE UNCHANGED <<ref, conc, open, adm>>
               /\ last' = [ty |-> ty, blocked |-> FALSE, viol |-> Viol, same |-> (ty = "out")]
@@ -88,15 +103,37 @@ Enter(ty, b) ==
     /\ h' = Append(h, [op |-> "enter", id |-> nid, ty |-> ty, b |-> b])
     /\ UNCHANGED <<now, rules, load, cpu, nset, ntick>>
 
-Exit(e) ==
+\* bookkeeping of one completion (overridden by the spec-level mutants of SystemGate_MC)
+CompleteUpd(r, t, rt, b, err) == OnCompleteE(r, t, rt, b, err)
+
+\* the completion of e: plain (werr = FALSE, no TraceError before), or carrying an error - passed to Exit (werr) or
+\* recorded earlier on the open entry by TraceError (e.terr)
+Exit(e, werr) ==
     /\ e \in open
     /\ open' = open \ {e}
-    /\ adm' = { IF a.id = e.id THEN [a EXCEPT !.tout = now] ELSE a : a \in adm }
-    /\ IF e.ty = "in" THEN ref' = OnComplete(ref, now, now - e.start, e.b) /\ conc' = conc - 1
-                      ELSE UNCHANGED <<ref, conc>>
+    /\ LET err == werr \/ e.terr IN
+       /\ adm' = { IF a.id = e.id THEN [a EXCEPT !.tout = now, !.err = err] ELSE a : a \in adm }
+       /\ IF e.ty = "in" THEN ref' = CompleteUpd(ref, now, now - e.start, e.b, err) /\ conc' = conc - 1
+                         ELSE UNCHANGED <<ref, conc>>
     /\ last' = NoLast
-    /\ h' = Append(h, [op |-> "exit", id |-> e.id])
+    /\ h' = Append(h, [op |-> "exit", id |-> e.id, err |-> werr])
     /\ UNCHANGED <<now, rules, nid, load, cpu, nset, ntick>>
+
+\* api.TraceError on an open entry: nothing the gate reads changes now; the completion will carry the error
+TraceErr(e) ==
+    /\ e \in open /\ ~e.terr
+    /\ open' = (open \ {e}) \cup {[e EXCEPT !.terr = TRUE]}
+    /\ last' = NoLast
+    /\ h' = Append(h, [op |-> "trace", id |-> e.id])
+    /\ UNCHANGED <<now, rules, ref, conc, adm, nid, load, cpu, nset, ntick>>
+
+\* Exit(WithError) / TraceError on an entry that has already completed: an entry completes ONCE, nothing changes
+\* (a stuttering step of `view`; it only extends the scenario h)
+Late(a, how) ==
+    /\ a \in adm /\ a.tout # -1
+    /\ last' = NoLast
+    /\ h' = Append(h, [op |-> "late", id |-> a.id, how |-> how])
+    /\ UNCHANGED <<now, rules, ref, conc, open, adm, nid, load, cpu, nset, ntick>>
 
 \* an entry of the plain history that can still matter: open, or admitted / completed inside the 1 s view
 InView(t, at) == at >= 0 /\ Align(at, GPBL) >= Align(t, GPBL) - GVI + GPBL
@@ -125,7 +162,9 @@ HasMt(m) == \E i \in DOMAIN rules : rules[i].mt = m
 
 Next ==
     \/ \E ty \in {"in", "out"}, b \in Batches : Enter(ty, b)
-    \/ \E e \in open : Exit(e)
+    \/ \E e \in open, werr \in BOOLEAN : Exit(e, werr)
+    \/ \E e \in open : TraceErr(e)
+    \/ \E a \in adm, how \in {"exit", "trace"} : Late(a, how)
     \/ \E d \in Steps : Tick(d)
     \/ \E v \in Samples : HasMt("load") /\ SetLoad(v)
     \/ \E v \in Samples : HasMt("cpu") /\ SetCpu(v)
@@ -145,6 +184,7 @@ DoneIn     == { a \in Inb : InView(now, a.tout) }         \* completed in this o
 HQps       == SumFn([a \in AdmittedIn |-> a.b])
 HCompl     == SumFn([a \in DoneIn |-> a.b])
 HRtSum     == SumFn([a \in DoneIn |-> a.tout - a.tin])
+HErr       == SumFn([a \in { x \in DoneIn : x.err } |-> a.b])    \* ... of which with an error
 HAvgRt     == IF HCompl > 0 THEN HRtSum \div HCompl ELSE 0
 HMinRt     == IF DoneIn = {} THEN MaxRt
               ELSE LET m == CHOOSE x \in { a.tout - a.tin : a \in DoneIn } : \A a \in DoneIn : x <= a.tout - a.tin
@@ -158,15 +198,19 @@ HConc      == Cardinality({ a \in Inb : a.tout = -1 })
 
 TypeOK ==
     /\ now > 0 /\ conc \in Nat /\ nid \in Nat
-    /\ \A e \in open : e.start <= now /\ e.b > 0
+    /\ \A e \in open : e.start <= now /\ e.b > 0 /\ e.terr \in BOOLEAN
+    /\ \A a \in adm : a.err \in BOOLEAN /\ (a.tout = -1 => ~a.err)
     /\ last.viol \subseteq DOMAIN rules
 
 \* the bookkeeping the gate reads means what the statement says
 QpsOK   == Qps(ref, now) = HQps
-AvgRtOK == AvgRt(ref, now) = HAvgRt /\ Completes(ref, now) = HCompl
+\* (every completion counts, with its response time, whether or not it carried an error)
+AvgRtOK == AvgRt(ref, now) = HAvgRt /\ Completes(ref, now) = HCompl /\ RtSum(ref, now) = HRtSum
 MinRtOK == MinRt(ref, now) = HMinRt
 PeakOK  == Peak(ref, now) = HPeak
 ConcOK  == conc = HConc /\ conc = Cardinality({ e \in open : e.ty = "in" })
+\* the error kind holds exactly the completions that carried an error - a subset of the completions
+ErrOK   == Errors(ref, now) = HErr /\ Errors(ref, now) <= Completes(ref, now)
 
 \* structural consequences of the statement
 OutboundNeverBlocked == last.ty = "out" => ~last.blocked
